@@ -10,7 +10,7 @@ from ..harness import World, execute, place_summary, probe, violation
 
 LEVEL = "exploration"
 PLAN = {
-    "quick": {"mem": 300, "redis": 400, "rabbit": 400},
+    "quick": {"mem": 240, "redis": 330, "rabbit": 330},
     "thorough": {"mem": 6000, "redis": 20000, "rabbit": 20000},
 }
 BUDGET = {"quick": 50, "thorough": 900}
@@ -23,7 +23,8 @@ RULE = (
     "(scheduled S_i, reschedule requeue issued at F_i with parameters P'): exactly one message with the id afterwards; "
     "P'.already_tried == 0; P'.timestamp within the requeue call; S_{i+1} = P'.next_execution_time with F_i < S_{i+1} <= F_i + p "
     "and S_{i+1} >= S_i + p; first delivery not before deferred_until. cron= is not exercisable (croniter is not installed). "
-    "Twins mode (15%): 2-4 recurring jobs in one queue on the same slot grid (same deferred_until, periods p or 2p, runs "
+    "In 20% of the runs the worker (graceful period 0) is stopped 1-46 loop steps after an iteration's body ended, i.e. around "
+    "its reschedule requeue: still exactly one message with the id. Twins mode (15%): 2-4 recurring jobs in one queue on the same slot grid (same deferred_until, periods p or 2p, runs "
     "finishing within the same microsecond-aligned slot): every id has exactly one message at the end and ran in every slot. "
     "non-trivial = at least 3 iterations completed; distinct = interleaving digest."
 )
@@ -71,7 +72,16 @@ def gen(rng, broker, tier):
     until = rng.choice([None, None, rng.randint(-2_000_000, 5_000_000), int(p * 1e6 * 1.5)])
     # slow I/O: the result of every run is stored by a results broker which stalls for a part of / longer than the period
     slow = rng.choice([None, None, None, int(p * 0.6e6), int(p * 1.3e6)])
-    return {"period_s": p, "profile": prof, "retries": retries, "until_us": until, "slow_store_us": slow,
+    # the worker is told to stop (graceful period 0: forced cancellation follows within a few dozen loop steps) a seeded
+    # number of steps after the actor body of one iteration ended, i.e. around its reschedule requeue
+    stop_at = rng.choice([None, None, None, None, {"iter": rng.randint(0, 3), "offset": rng.randint(0, 45), "anchor": "actor_end"}])
+    if stop_at and rng.random() < 0.6:
+        stop_at = {"iter": stop_at["iter"], "offset": rng.randint(0, 12), "anchor": "requeue_begin"}
+    if stop_at and rng.random() < 0.5:
+        # exact placement: stop request while the body runs, the forced cancellation (what stop_wait_and_cancel() does when
+        # the graceful period is over) 0-6 loop steps after the body ended
+        stop_at = {"iter": stop_at["iter"], "offset": rng.randint(0, 6), "anchor": "force"}
+    return {"period_s": p, "profile": prof, "retries": retries, "until_us": until, "slow_store_us": slow, "stop_at": stop_at,
             "ttl_s": rng.choice([None, None, max(p * 3, 40), 100000]),
             "retry_table_us": [rng.choice([0, 100_000, 700_000])],
             "knobs": {"step_cost": rng.choice([0, 0, 1, "rand"]),
@@ -108,6 +118,10 @@ async def _main(sim, sc, out):
         pr = prof[it]
         attempt_in_iter[0] += 1
         rec.note("actor_start", "rj", iteration=it, attempt=attempt_in_iter[0])
+        sa_ = sc.get("stop_at")
+        if sa_ and sa_.get("anchor") == "force" and it == sa_["iter"] and stop["us"] is None:
+            stop["us"] = sim.clock.us  # stop request while the body runs (graceful period: an hour)
+            sim.loop.deliver_signal("w", signal.SIGINT)
         try:
             if pr["dur_us"]:
                 await asyncio.sleep(pr["dur_us"] / 1e6)
@@ -116,11 +130,61 @@ async def _main(sim, sc, out):
             return it
         finally:
             rec.note("actor_end", "rj", iteration=it)
+            sa = sc.get("stop_at")
+            if sa and sa.get("anchor", "actor_end") == "actor_end" and it == sa["iter"]:
+                arm_stop(sa["offset"])
+            if sa and sa.get("anchor") == "force" and it == sa["iter"] and not stop["armed"]:
+                stop["armed"] = True
+
+                def force():
+                    if runners:
+                        runners[-1].cancel_event.set()
+                        sim.count("forced-cancellation-around-reschedule-requeue")
+
+                # the graceful period ends `offset` loop steps after the body ended (0: in the very same step)
+                if sa["offset"] == 0:
+                    force()
+                else:
+                    sim.at_step(sim.loop.step + sa["offset"], force)
+
+    stop = {"us": None, "armed": False}
+
+    def arm_stop(offset):
+        if stop["us"] is not None or stop["armed"]:
+            return
+        stop["armed"] = True
+
+        def send():
+            if stop["us"] is None:
+                stop["us"] = sim.clock.us
+                sim.loop.deliver_signal("w", signal.SIGINT)
+                sim.count("stop-signal-around-reschedule")
+
+        sim.at_step(sim.loop.step + 1 + offset, send)
 
     body.__annotations__ = {"jid": str}
     router = r.Router()
     router.actor(body, name="rec", queue="q0", retry_policy=workload.policy_from_spec({"kind": "table", "us": sc["retry_table_us"]}))
-    w = r.Worker(routers=[router], graceful_shutdown_time=1.0, _connection=connw)
+    sa0 = sc.get("stop_at")
+    runners: list = []
+    if sa0 and sa0.get("anchor") == "force":
+        import repid.worker as _rw
+
+        from . import c03 as _c03
+
+        if _c03._ORIG_RUNNER is None:
+            _c03._ORIG_RUNNER = _rw._Runner
+        _orig_runner = _c03._ORIG_RUNNER
+
+        class _CapturingRunner(_orig_runner):  # harness-side seam, as in C03
+            def __init__(self, *a, **k):
+                super().__init__(*a, **k)
+                runners.append(self)
+
+        _rw._Runner = _CapturingRunner
+        out["_restore"] = lambda: setattr(_rw, "_Runner", _orig_runner)
+    w = r.Worker(routers=[router], graceful_shutdown_time=(3600.0 if sa0.get("anchor") == "force" else 0.0) if sa0 else 1.0,
+                 _connection=connw)
     await sim.loop.spawn("p", r.Worker(routers=[router], _connection=connp).declare_all_queues())
     kw = {}
     t_enq = sim.clock.us
@@ -136,6 +200,10 @@ async def _main(sim, sc, out):
     # iteration bookkeeping through the recorder: a reschedule requeue (tried == 0) closes an iteration
     def listener(e, phase):
         if phase == "begin" and e.op == "requeue" and e.depth == 0 and e.args["params"]["tried"] == 0:
+            sa = sc.get("stop_at")
+            if sa and sa.get("anchor") == "requeue_begin" and iter_no[0] == sa["iter"]:
+                arm_stop(sa["offset"])
+
             iter_no[0] += 1
             attempt_in_iter[0] = 0
 
@@ -146,8 +214,10 @@ async def _main(sim, sc, out):
                                  for x in prof) + 10_000_000
     while sim.clock.us < horizon and iter_no[0] < n_iter and not wt.done():
         await asyncio.sleep(min(0.5, sc["period_s"] / 4))
-    t_sig = sim.clock.us
-    sim.loop.deliver_signal("w", signal.SIGINT)
+    t_sig = stop["us"] if stop["us"] is not None else sim.clock.us
+    if stop["us"] is None:
+        stop["us"] = t_sig
+        sim.loop.deliver_signal("w", signal.SIGINT)
     try:
         await asyncio.wait_for(asyncio.shield(wt), timeout=60)
     except asyncio.TimeoutError:
@@ -298,6 +368,9 @@ def run(sc):
         out["scenario"] = sc
         return out
     out = execute(_main, sc, step_cap=8_000_000, vt_cap_s=400_000, wall_s=200)
+    restore = out.pop("_restore", None)
+    if restore:
+        restore()
     if out["abort"]:
         out["violations"].append(violation(
             "abort", f"C06/{sc['broker']}/abort-{out['abort']['kind']}", detail=out["abort"]["detail"]))
@@ -306,4 +379,20 @@ def run(sc):
 
 
 def task(spec):
+    import copy
+    import random
+
+    run_seed = kernel.derive_seed(spec["seed"], spec["pid"], spec["broker"], spec["idx"])
+    rng = random.Random(kernel.derive_seed(run_seed, "workload"))
+    sc = gen(rng, spec["broker"], spec["tier"])
+    sa = sc.get("stop_at") if sc.get("mode") != "twins" else None
+    if sa and sa.get("anchor") == "force" and not sc.get("slow_store_us"):
+        # the window is one loop step wide on the in-memory broker: every offset 0..7 after the body's end is tried
+        sc.update({"seed": run_seed, "broker": spec["broker"], "property": spec["pid"]})
+        outs = []
+        for off in range(0, 8):
+            s2 = copy.deepcopy(sc)
+            s2["stop_at"]["offset"] = off
+            outs.append(run(s2))
+        return cli.summarize(sc, outs, keep_sample=False)
     return cli.default_task(__import__(__name__, fromlist=["x"]), spec)
